@@ -35,7 +35,7 @@ var registry = map[string]*Check{}
 
 // sweepRule: what checks_sweep.go / checks_grid.go / checks_soak.go add to a
 // check's own small-scope enumeration (appended to its rule text in the evidence).
-const sweepRule = " PLUS, beyond the small scope: (a) length sweeps - a fixed family of this check's configurations for EVERY length L of one designated dimension, L = 1..40 (thorough 1..300), every power of two 32..4096 (thorough 8192) with both neighbours, round sizes up to 3072 (10000), and every integer constant occurring in the library's CURRENT source (code-derived sizes n-1, n, n+1, small multiples), other dimensions 1..3; (b) grid sweeps - the families over all pairs of 10 (thorough 19) and all triples of 6 (9) medium sizes 4..64 (128), and over shapes of rank 1-3 whose element count is just above 4096, 16384, 65536 (thorough 2^18, 2^20) and above every code-derived integer; (c) soak histories - several hundred (thorough 6000) steps of a rotating list of the check's configurations in one process with fresh operands per step, one set of component objects and runtime.GC() every 8 steps, in two rotation orders. Same reference-model oracle."
+const sweepRule = " PLUS, beyond the small scope: (a) length sweeps - a fixed family of this check's configurations for EVERY length L of one designated dimension, L = 1..40 (thorough 1..300), every power of two 32..4096 (thorough 8192) with both neighbours, round sizes up to 3072 (10000), and every integer constant occurring in the library's CURRENT source (code-derived sizes n-1, n, n+1, small multiples), other dimensions 1..3; (b) grid sweeps - the families over all pairs of 10 (thorough 19) and all triples of 6 (9) medium sizes 4..64 (128), and over shapes of rank 1-3 whose element count is just above 4096, 16384, 65536 (thorough 2^18, 2^20) and above every code-derived integer; (c) soak histories - several hundred (thorough 4000) steps of a rotating list of the check's configurations in one process with fresh operands per step, one set of component objects and runtime.GC() every 8 steps, in two rotation orders. Same reference-model oracle."
 
 var sweptChecks = map[string]bool{"C01": true, "C02": true, "C03": true, "C04": true, "C05": true, "C06": true, "C07": true, "C11": true, "C12": true, "C13": true, "C14": true, "C15": true, "C16": true, "C17": true, "C19": true}
 
